@@ -9,7 +9,8 @@
 //  2. WRITES BEYOND len / DEPENDENCE ON cap: every []byte argument is also given as a sub-slice with 24 guard bytes
 //     behind it: guards intact, same result as on an exact-capacity copy.
 //  3. HIDDEN STATE BETWEEN CALLS: all cases are run a second time in a shuffled order (valid and malformed ones mixed)
-//     and must answer as the first time; slice headers / PPSs are parsed A, malformed A', A through THE SAME maps:
+//     and must answer as the first time; the structure returned by the run before is read once more after every run
+//     (no storage shared between calls); slice headers / PPSs are parsed A, malformed A', A through THE SAME maps:
 //     equal answers and the maps' parameter sets unchanged.
 //  4. ENCODE-TIME MUTATION / SPARE-ROOM WRITERS: DecConfRec.EncodeSW into a writer with spare room writes exactly Size()
 //     bytes, the bytes of Encode, nothing behind them; encoding does not change the record; encoding twice is stable.
@@ -38,6 +39,8 @@ type hygCtx struct {
 	view   []bool     // handed to a zero-copy decoder: checked for guards, not scribbled
 	lists  [][][]byte // caller-owned lists of NAL units handed to the library
 	issues []hygIssue
+	mk     func() *flat // the last "ok" result of the run: how to read it again, and what it read (after the caller's re-use)
+	f      *flat
 }
 
 // hyg is nil in corr and during the baseline pass of search.
@@ -141,6 +144,8 @@ func okResult(mk func() *flat) result {
 		hyg.reuse()
 		if d := firstDiff(f, mk()); d != "" {
 			hyg.issue("keeps-callers-buffer", "the result changed when the caller overwrote the NAL unit buffers / lists it had passed: "+d)
+		} else {
+			hyg.mk, hyg.f = mk, f
 		}
 	}
 	return result{outcome: "ok", f: f}
@@ -363,6 +368,8 @@ func hygiene(cases []caseLine, base []string) (evals int) {
 		}
 		fmt.Fprintf(out, "FAIL\t%s\t%s\t%s\t%s\n", site, class, c.kind+" arg="+c.arg+" nalu="+c.nalu, desc)
 	}
+	var prev *hygCtx // the run before: its result is read once more after the current run
+	var prevCase caseLine
 	for _, i := range order {
 		c := cases[i]
 		if strings.HasPrefix(base[i], "bad") {
@@ -373,6 +380,13 @@ func hygiene(cases []caseLine, base []string) (evals int) {
 		r := runCase(c)
 		h := hyg
 		hyg = nil
+		if prev != nil && prev.mk != nil {
+			var d string
+			if p := hx.Try(func() { d = firstDiff(prev.f, prev.mk()) }); p != "" || d != "" {
+				fail(prevCase, "result-changed-by-later-calls", "the structure returned for this input reads differently after a later call (storage shared between calls): "+d+p)
+			}
+		}
+		prev, prevCase = h, c
 		if ok, off := h.guardsIntact(); !ok {
 			fail(c, "writes-beyond-len", fmt.Sprintf("byte %d behind the end of a []byte argument (inside its capacity) was overwritten", off))
 		}
